@@ -125,7 +125,7 @@ def parse_diagnostics(stderr):
 def run_verus(ws, modules=None, rlimit=None, threads=8, extra=None, timeout=3600):
     dd, ext = deps_dir(ws.repo)
     cmd = ['verus', 'src/lib.rs', '--crate-type=lib', '--crate-name', 'yamaquasi', '--edition', '2021',
-           '-L', 'dependency=' + dd] + ext + ['--output-json', '--time-expanded', '--triggers-mode', 'silent', '--num-threads', str(threads)]
+           '-L', 'dependency=' + dd] + ext + ['--output-json', '--time-expanded', '--triggers-mode', 'silent', '--multiple-errors', '12', '--num-threads', str(threads)]
     if rlimit:
         cmd += ['--rlimit', str(rlimit)]
     for m in modules or []:
